@@ -33,8 +33,23 @@ type Tracker struct {
 	NoTrace bool
 	// OnRead, if set, is called after every read with the index of the read (diagnosis mode).
 	OnRead func(i int, rd *Rd)
-	Reads  int
+	// Guard, if set, is called after every fully served 2/4/8-byte read with its little-endian
+	// value (before the value is returned to the decoder); it may panic to stop the decode.
+	Guard func(rd *Rd, val uint64)
+	Reads int
 }
+
+// LEValue is the little-endian value of a 1/2/4/8-byte read.
+func LEValue(p []byte) uint64 {
+	var v uint64
+	for i := len(p) - 1; i >= 0; i-- {
+		v = v<<8 | uint64(p[i])
+	}
+	return v
+}
+
+// SiteHere names the repository frame that is reading right now (valid inside Read hooks).
+func (t *Tracker) SiteHere() string { return callerSite() }
 
 func NewTracker(b []byte) *Tracker { return &Tracker{Data: b} }
 
@@ -48,6 +63,9 @@ func (t *Tracker) Read(p []byte) (int, error) {
 	}
 	if !t.NoTrace {
 		t.Trace = append(t.Trace, rd)
+	}
+	if t.Guard != nil && n == len(p) && (n == 2 || n == 4 || n == 8) {
+		t.Guard(&rd, LEValue(p))
 	}
 	if t.OnRead != nil {
 		t.OnRead(t.Reads-1, &rd)
@@ -163,7 +181,7 @@ func fieldName(src string) string {
 // not a primitive reader.
 func callerSite() string {
 	var pcs [48]uintptr
-	n := runtime.Callers(3, pcs[:])
+	n := runtime.Callers(2, pcs[:])
 	// memo on the pc of the deciding frame is not possible before finding it; memo on the
 	// whole lookup keyed by the first 6 pcs is overkill — frames are resolved every time, this
 	// path is only used for baselines and diagnosis.
